@@ -332,6 +332,7 @@ func (s *Sim) Step() (progress bool) {
 func (s *Sim) RunChaos(n int, done func() bool) {
 	s.chaos = true
 	for i := 0; i < n && !s.failed(); i++ {
+		synctest.Wait() // the previous action's goroutines must be parked before anyone looks
 		if done != nil && done() {
 			return
 		}
